@@ -215,17 +215,33 @@ def run(ctx):
             multi["T"] = multi.get("T", 0) + 1
         elif f[0] == "S" and "," in f[-1]:
             multi["S"] = multi.get("S", 0) + 1
+    # W lines on which the extracted C11Spec.ref_sync_hyps (the hypothesis of C11_segmenter_segments_start_sync_applies /
+    # C11_segmenter_lazy_segments_start_sync_applies) evaluated to true, per tool mode; the driver has then checked the
+    # theorem's conclusion on the files the tool wrote (a failure is a MISMATCH line)
+    sync_applies = {}
+    for l in res:
+        if l.startswith("OK ") and " synchyp=" in l:
+            k = l.split(" synchyp=", 1)[1].strip()
+            sync_applies[k] = sync_applies.get(k, 0) + 1
     ctx.cov["evaluations"] += len(lines)
     ctx.cov["distinct_nontrivial"] += distinct
     ctx.notes["correspondence"] = {"cases": len(lines), "mismatches": len(mism), "distinct_cases": distinct,
                                    "kinds": kinds, "outcome_classes": classes,
-                                   "cases_with_two_or_more_output_pieces": multi}
+                                   "cases_with_two_or_more_output_pieces": multi,
+                                   "sync_theorem_applies": {
+                                       "W_cases": kinds.get("W", 0), "hypotheses_true_by_mode": sync_applies,
+                                       "meaning": "ref_sync_hyps = true on the tables DecodeFile saw; single / lazy: instances "
+                                                  "of the two _applies theorems, conclusion checked on the files the built tool "
+                                                  "wrote; mux / muxlazy: same evaluation, clause explored only; "
+                                                  "<mode>:tool-refused = hypotheses true for the reference track but the tool "
+                                                  "stopped on another track"}}
     pick = [l for l in lines if l.startswith("S\tg")][:2] + [l for l in lines if l.startswith("S\tm")][:1] + \
            [l for l in lines if l.startswith("T\t")][:2] + [l for l in lines if l[:1] in "RFM"][:3] + \
            [l for l in lines if l.startswith("G\tfv")][:1] + [l for l in lines if l.startswith("G\tfm")][:1] + \
            [l[:120] + " ... " + l[-260:] for l in lines if l.startswith("W\t") and "+" in l][:1]
     ctx.cov["samples"] += [l[:400] for l in pick]
-    ctx.log("correspondence: %d cases (%s), %d mismatches" % (len(lines), kinds, len(mism)))
+    ctx.log("correspondence: %d cases (%s), %d mismatches; sync theorem hypotheses true on %s of %d W cases" % (
+        len(lines), kinds, len(mism), sync_applies, kinds.get("W", 0)))
 
     # ---- search: the property itself on the built tools
     ns = ctx.n(250, 6000)
